@@ -131,7 +131,22 @@ template <class T>
 IMATH_HOSTDEVICE IMATH_CONSTEXPR14 inline T
 Line3<T>::distanceTo (const Line3<T>& line) const IMATH_NOEXCEPT
 {
-    T d = (dir % line.dir) ^ (line.pos - pos);
+    //
+    // The distance is the length of the projection of the vector
+    // between the two origins onto the common normal.  The cross
+    // product of the two unit directions has an absolute rounding
+    // error of about epsilon per component; when it is not clearly
+    // longer than that, the lines are parallel and every point of one
+    // line is equally far from the other.
+    //
+
+    Vec3<T> normal = dir % line.dir;
+    T       len    = normal.length ();
+
+    if (len <= T (4) * std::numeric_limits<T>::epsilon ())
+        return distanceTo (line.pos);
+
+    T d = (normal ^ (line.pos - pos)) / len;
     return (d >= 0) ? d : -d;
 }
 
